@@ -29,11 +29,11 @@ Definition run_body (rec : routine -> pv -> res pv) (r : routine) (x : pv) : res
     | RNoOp => Ok x
     | RSeq k r' =>
         bind (load rt x) (fun d => bind (itervalues rt d) (fun vs =>
-        bind (mapM (rec r') vs) (fun rs => construct_seq rt k rs)))
+        bind (mapM (elem_conv rt k (rec r')) vs) (fun rs => construct_seq rt k rs)))
     | RMap k rk rv =>
         bind (load rt x) (fun d => bind (iteritems rt E d) (fun kvs =>
-        bind (mapM (fun kv => bind (rec rk (fst kv)) (fun k' =>
-                              bind (rec rv (snd kv)) (fun v' => Ok (k', v')))) kvs)
+        bind (mapM (hashing rt fst (fun kv => bind (rec rk (fst kv)) (fun k' =>
+                              bind (rec rv (snd kv)) (fun v' => Ok (k', v'))))) kvs)
              (fun rs => construct_map rt k rs)))
     | RTuple rs =>
         bind (load rt x) (fun d => bind (itervalues rt d) (fun vs =>
@@ -58,8 +58,8 @@ Definition run_body (rec : routine -> pv -> res pv) (r : routine) (x : pv) : res
     | RSeq k r' => bind (itervalues rt x) (fun vs => bind (mapM (rec r') vs) (fun rs => Ok (PSeq KList rs)))
     | RMap k rk rv =>
         bind (iteritems rt E x) (fun kvs =>
-        bind (mapM (fun kv => bind (rec rk (fst kv)) (fun k' =>
-                              bind (rec rv (snd kv)) (fun v' => Ok (k', v')))) kvs)
+        bind (mapM (hashing rt fst (fun kv => bind (rec rk (fst kv)) (fun k' =>
+                              bind (rec rv (snd kv)) (fun v' => Ok (k', v'))))) kvs)
              (fun rs => construct_map rt KDict rs))
     | RTuple rs =>
         bind (itervalues rt x) (fun vs =>
@@ -110,14 +110,15 @@ Proof.
   intros Hc. unfold run_body. destruct dir; destruct r as [s| | |k r'|k rk rv|rs|nl rs|c fields|t]; try reflexivity.
   - (* u seq *) destruct (load rt x) as [d|e| |]; cbn [bind done]; try reflexivity.
     destruct (itervalues rt d) as [vs|e| |]; cbn [bind done]; try reflexivity. intros Hd.
-    rewrite (mapM_mono (c1 r') (c2 r')); [reflexivity|intros y _ Hy; apply Hc; exact Hy|].
+    rewrite (mapM_mono (elem_conv rt k (c1 r')) (elem_conv rt k (c2 r')));
+      [reflexivity|intros y _ Hy; apply elem_conv_mono; [apply Hc|exact Hy]|].
     destruct (bind_done _ _ Hd) as [[o [Ho _]]|[e He]]; [rewrite Ho|rewrite He]; reflexivity.
   - (* u map *) destruct (load rt x) as [d|e| |]; cbn [bind done]; try reflexivity.
     destruct (iteritems rt E d) as [kvs|e| |]; cbn [bind done]; try reflexivity. intros Hd.
-    rewrite (mapM_mono (fun kv => bind (c1 rk (fst kv)) (fun k' => bind (c1 rv (snd kv)) (fun v' => Ok (k', v'))))
-                       (fun kv => bind (c2 rk (fst kv)) (fun k' => bind (c2 rv (snd kv)) (fun v' => Ok (k', v'))))).
+    rewrite (mapM_mono (hashing rt fst (fun kv => bind (c1 rk (fst kv)) (fun k' => bind (c1 rv (snd kv)) (fun v' => Ok (k', v')))))
+                       (hashing rt fst (fun kv => bind (c2 rk (fst kv)) (fun k' => bind (c2 rv (snd kv)) (fun v' => Ok (k', v')))))).
     + reflexivity.
-    + intros kv _ Hkv. cbv beta in *. destruct (bind_done _ _ Hkv) as [[k' [Hk Hk2]]|[e He]].
+    + intros kv _. apply hashing_mono. intros Hkv. cbv beta in *. destruct (bind_done _ _ Hkv) as [[k' [Hk Hk2]]|[e He]].
       * rewrite (Hc rk (fst kv)) by (rewrite Hk; reflexivity). rewrite Hk. cbn [bind].
         destruct (bind_done _ _ Hk2) as [[v' [Hv _]]|[e He]].
         -- rewrite (Hc rv (snd kv)) by (rewrite Hv; reflexivity). reflexivity.
@@ -141,10 +142,10 @@ Proof.
     rewrite (mapM_mono (c1 r') (c2 r')); [reflexivity|intros y _ Hy; apply Hc; exact Hy|].
     destruct (bind_done _ _ Hd) as [[o [Ho _]]|[e He]]; [rewrite Ho|rewrite He]; reflexivity.
   - (* m map *) destruct (iteritems rt E x) as [kvs|e| |]; cbn [bind done]; try reflexivity. intros Hd.
-    rewrite (mapM_mono (fun kv => bind (c1 rk (fst kv)) (fun k' => bind (c1 rv (snd kv)) (fun v' => Ok (k', v'))))
-                       (fun kv => bind (c2 rk (fst kv)) (fun k' => bind (c2 rv (snd kv)) (fun v' => Ok (k', v'))))).
+    rewrite (mapM_mono (hashing rt fst (fun kv => bind (c1 rk (fst kv)) (fun k' => bind (c1 rv (snd kv)) (fun v' => Ok (k', v')))))
+                       (hashing rt fst (fun kv => bind (c2 rk (fst kv)) (fun k' => bind (c2 rv (snd kv)) (fun v' => Ok (k', v')))))).
     + reflexivity.
-    + intros kv _ Hkv. cbv beta in *. destruct (bind_done _ _ Hkv) as [[k' [Hk Hk2]]|[e He]].
+    + intros kv _. apply hashing_mono. intros Hkv. cbv beta in *. destruct (bind_done _ _ Hkv) as [[k' [Hk Hk2]]|[e He]].
       * rewrite (Hc rk (fst kv)) by (rewrite Hk; reflexivity). rewrite Hk. cbn [bind].
         destruct (bind_done _ _ Hk2) as [[v' [Hv _]]|[e He]].
         -- rewrite (Hc rv (snd kv)) by (rewrite Hv; reflexivity). reflexivity.
@@ -533,7 +534,8 @@ Proof.
       destruct (load rt x) as [d|e| |]; cbn [bind done] in *; try discriminate Hd; try apply ev_const.
       destruct (itervalues rt d) as [vs|e| |]; cbn [bind done] in *; try discriminate Hd; try apply ev_const.
       apply ev_bind; [|intros rs0 _; apply ev_const|exact Hd].
-      apply mapM_ev; [intros v0 _ Hv; apply IHmem; assumption|].
+      apply (mapM_ev (elem_conv rt k0 (unm rt E n a)) (fun m => elem_conv rt k0 (runu m r)));
+        [intros v0 _ Hv; apply ev_elem_conv; [intros Hv'; apply IHmem; assumption|exact Hv]|].
       destruct (bind_done _ _ Hd) as [[o [Ho _]]|[e He]]; [rewrite Ho|rewrite He]; reflexivity.
     - (* map *) rewrite (aexpn_terminal _ _ _ _ Hch) in Hd |- * by (intros n1 v1 Hq; discriminate Hq).
       cbn [resolvable] in Hres. apply andb_true_iff in Hres. destruct Hres as [Hresk Hresv].
@@ -542,7 +544,10 @@ Proof.
       destruct (iteritems rt E d) as [kvs|e| |]; cbn [bind done] in *; try discriminate Hd; try apply ev_const.
       apply ev_bind; [|intros rs0 _; apply ev_const|exact Hd].
       apply mapM_ev.
-      + intros kv _ Hkv. apply ev_bind; [| |exact Hkv].
+      + intros kv _ Hkh.
+        apply (ev_hashing rt fst _ (fun m (kv : pv * pv) => bind (runu m rk (fst kv))
+                 (fun k' => bind (runu m rv (snd kv)) (fun v' => Ok (k', v')))) kv); [|exact Hkh].
+        clear Hkh. intros Hkv. apply ev_bind; [| |exact Hkv].
         * apply IHmem; [assumption|assumption|].
           destruct (bind_done _ _ Hkv) as [[k' [Hk _]]|[e He]]; [rewrite Hk|rewrite He]; reflexivity.
         * intros k' Hk'. rewrite Hk' in Hkv. cbn [bind] in Hkv. apply ev_bind; [|intros v' _; apply ev_const|exact Hkv].
@@ -701,7 +706,10 @@ Proof.
       destruct (iteritems rt E x) as [kvs|e| |]; cbn [bind done] in *; try discriminate Hd; try apply ev_const.
       apply ev_bind; [|intros rs0 _; apply ev_const|exact Hd].
       apply mapM_ev.
-      + intros kv _ Hkv. apply ev_bind; [| |exact Hkv].
+      + intros kv _ Hkh.
+        apply (ev_hashing rt fst _ (fun m (kv : pv * pv) => bind (runm m rk (fst kv))
+                 (fun k' => bind (runm m rv (snd kv)) (fun v' => Ok (k', v')))) kv); [|exact Hkh].
+        clear Hkh. intros Hkv. apply ev_bind; [| |exact Hkv].
         * apply IHmem; [assumption|assumption|].
           destruct (bind_done _ _ Hkv) as [[k' [Hk _]]|[e He]]; [rewrite Hk|rewrite He]; reflexivity.
         * intros k' Hk'. rewrite Hk' in Hkv. cbn [bind] in Hkv. apply ev_bind; [|intros v' _; apply ev_const|exact Hkv].
